@@ -43,7 +43,7 @@ def merged_lookups(ctx, n):
             names = [s['name'] for s in stores]
             res = do_merge(d, 'm.aeic-store', names)
             ids = [a['fid'] for s in stores for a in s['adds']]
-            probe = ids + [-77, 100000]
+            probe = ids + [-77, 100000] + [i + 1 for i in ids if abs(i) > 2 ** 52 and i + 1 not in ids][:3]   # (absent neighbours of big ids)
             order = list(ctx.rng.permutation(len(probe)))
             probe = [probe[i] for i in order]
             case = {'stores': stores, 'cache_mb': cache, 'probe': probe}
@@ -79,6 +79,9 @@ def main(ctx):
         ex = short_sequences('ALOSP', 4, True) + short_sequences('ALOSVP', 4, True, mem=True)
     else:
         ex = short_sequences('ALOSP', 5, True) + short_sequences('ALOSVP', 5, True, mem=True)
+    # "a store must be either fully identified or not at all": adds with the wrong identification status at every position, also
+    # as the first add of an append session (when nothing has been read yet), in identified and unidentified stores
+    ex += short_sequences('AWLP', 4, True) + short_sequences('AWGP', 3, False)
     ctx.extra['exhaustive_short_sequences'] = len(ex)
     hs += ex
     check_histories(ctx, hs, OP_CLASS['C08'], 'get_flight_refines_dict', nontrivial, tag=' (C08)')
